@@ -26,26 +26,27 @@ def partialOut (s : Sys) : List Nat :=
     | [] => []
     | r :: _ => if (s.threads i).pc = 1 then r.take (s.threads i).wpos else r
 
-structure Inv (prog : List Instr) (orig : Nat → List Rec) (s : Sys) : Prop where
+structure Inv (orig : Nat → List Rec) (s : Sys) : Prop where
   past_lock_holds : ∀ i, (s.threads i).pc > 0 → s.holder = some i
   holder_past_lock : ∀ i, s.holder = some i → (s.threads i).pc > 0 ∧ (s.threads i).todo ≠ []
   idle_wpos : ∀ i, (s.threads i).pc = 0 → (s.threads i).wpos = 0
   accounted : ∀ i, ((s.done.filter (·.1 = i)).map (·.2)) ++ (s.threads i).todo = orig i
   output : s.out = (s.done.map (·.2)).flatten ++ partialOut s
 
-theorem inv_init (prog : List Instr) (recs : Nat → List Rec) : Inv prog recs (init recs) := by
+theorem inv_init (recs : Nat → List Rec) : Inv recs (init recs) := by
   constructor <;> simp [init, partialOut]
 
 theorem prog_at {prog : List Instr} (h : GoodProg prog) (k : Nat) :
     (prog[k]? = some .lock ↔ k = 0) ∧ (prog[k]? = some .write ↔ k = 1) ∧
-    (prog[k]? = some .flush → 2 ≤ k) ∧ (prog[k]? = none → 2 ≤ k) := by
+    (prog[k]? = some .flush → 2 ≤ k) ∧ (prog[k]? = none → 2 ≤ k) ∧ prog[k]? ≠ some .unlock := by
   obtain ⟨tail, rfl, ht⟩ := h
   match k with
   | 0 => simp
   | 1 => simp
   | k + 2 =>
     simp only [List.getElem?_cons_succ]
-    refine ⟨?_, ?_, fun _ => by omega, fun _ => by omega⟩
+    refine ⟨?_, ?_, fun _ => by omega, fun _ => by omega,
+      fun hk => by have := ht _ (List.mem_of_getElem? hk); simp at this⟩
     · constructor
       · intro hk; have := ht _ (List.mem_of_getElem? hk); simp at this
       · intro hk; omega
@@ -54,19 +55,19 @@ theorem prog_at {prog : List Instr} (h : GoodProg prog) (k : Nat) :
       · intro hk; omega
 
 /-- One scheduler step of any thread keeps the invariant. -/
-theorem step_inv {prog : List Instr} (hp : GoodProg prog) (orig : Nat → List Rec) (s : Sys) (i : Nat)
-    (h : Inv prog orig s) : Inv prog orig (step prog s i) := by
+theorem step_inv {P : Rec → List Instr} (hp : ∀ r, GoodProg (P r)) (orig : Nat → List Rec) (s : Sys) (i : Nat)
+    (h : Inv orig s) : Inv orig (step P s i) := by
   unfold step
   cases htodo : (s.threads i).todo with
   | nil => simp only [htodo]; exact h
   | cons r rest =>
     simp only [htodo]
-    have hpa := prog_at hp (s.threads i).pc
-    cases hin : prog[(s.threads i).pc]? with
+    have hpa := prog_at (hp r) (s.threads i).pc
+    cases hin : (P r)[(s.threads i).pc]? with
     | none =>
       -- the body ends: release, record done
       simp only [hin]
-      have hpc : 2 ≤ (s.threads i).pc := hpa.2.2.2 hin
+      have hpc : 2 ≤ (s.threads i).pc := hpa.2.2.2.1 hin
       have hhold : s.holder = some i := h.past_lock_holds i (by omega)
       have hothers : ∀ k, k ≠ i → (s.threads k).pc = 0 := by
         intro k hk
@@ -215,20 +216,21 @@ theorem step_inv {prog : List Instr} (hp : GoodProg prog) (orig : Nat → List R
           rw [if_neg (by omega)] at this
           have hne : ¬ ((s.threads i).pc + 1 = 1) := by omega
           simp only [partialOut, hhold, updT, htodo, if_true, hne, if_false, this]
+      | unlock => exact absurd hin hpa.2.2.2.2
 
 /-- **Every schedule** keeps the invariant. -/
-theorem runs_inv {prog : List Instr} (hp : GoodProg prog) (recs : Nat → List Rec) (sched : List Nat) :
-    Inv prog recs (runs prog (init recs) sched) := by
-  suffices ∀ s, Inv prog recs s → Inv prog recs (runs prog s sched) from this _ (inv_init prog recs)
+theorem runs_inv {P : Rec → List Instr} (hp : ∀ r, GoodProg (P r)) (recs : Nat → List Rec) (sched : List Nat) :
+    Inv recs (runs P (init recs) sched) := by
+  suffices ∀ s, Inv recs s → Inv recs (runs P s sched) from this _ (inv_init recs)
   induction sched with
   | nil => intro s h; exact h
   | cons i rest ih => intro s h; exact ih _ (step_inv hp recs s i h)
 
 /-- **Mutual exclusion**: under every schedule at most one thread is past the lock — no two threads
 are ever inside the (not thread-safe) stream at the same time. -/
-theorem mutex {prog : List Instr} (hp : GoodProg prog) (recs : Nat → List Rec) (sched : List Nat)
-    (i j : Nat) (hi : ((runs prog (init recs) sched).threads i).pc > 0)
-    (hj : ((runs prog (init recs) sched).threads j).pc > 0) : i = j := by
+theorem mutex {P : Rec → List Instr} (hp : ∀ r, GoodProg (P r)) (recs : Nat → List Rec) (sched : List Nat)
+    (i j : Nat) (hi : ((runs P (init recs) sched).threads i).pc > 0)
+    (hj : ((runs P (init recs) sched).threads j).pc > 0) : i = j := by
   have h := runs_inv hp recs sched
   have a := h.past_lock_holds i hi
   have b := h.past_lock_holds j hj
@@ -238,9 +240,9 @@ theorem mutex {prog : List Instr} (hp : GoodProg prog) (recs : Nat → List Rec)
 done) the output is the concatenation of whole records, each record logged so far exactly once, and
 the records of every thread appear in that thread's program order: `done` restricted to a thread,
 followed by what the thread still has to log, is the thread's original sequence. -/
-theorem atomic {prog : List Instr} (hp : GoodProg prog) (recs : Nat → List Rec) (sched : List Nat)
-    (hidle : (runs prog (init recs) sched).holder = none) :
-    let s := runs prog (init recs) sched
+theorem atomic {P : Rec → List Instr} (hp : ∀ r, GoodProg (P r)) (recs : Nat → List Rec) (sched : List Nat)
+    (hidle : (runs P (init recs) sched).holder = none) :
+    let s := runs P (init recs) sched
     s.out = (s.done.map (·.2)).flatten ∧
     ∀ i, ((s.done.filter (·.1 = i)).map (·.2)) ++ (s.threads i).todo = recs i := by
   intro s
@@ -250,9 +252,9 @@ theorem atomic {prog : List Instr} (hp : GoodProg prog) (recs : Nat → List Rec
   simpa [partialOut, hidle] using this
 
 /-- When every thread has finished, nothing is lost or duplicated: per thread, exactly its records. -/
-theorem complete {prog : List Instr} (hp : GoodProg prog) (recs : Nat → List Rec) (sched : List Nat)
-    (hall : ∀ i, ((runs prog (init recs) sched).threads i).todo = []) :
-    let s := runs prog (init recs) sched
+theorem complete {P : Rec → List Instr} (hp : ∀ r, GoodProg (P r)) (recs : Nat → List Rec) (sched : List Nat)
+    (hall : ∀ i, ((runs P (init recs) sched).threads i).todo = []) :
+    let s := runs P (init recs) sched
     s.out = (s.done.map (·.2)).flatten ∧ ∀ i, (s.done.filter (·.1 = i)).map (·.2) = recs i := by
   intro s
   have h := runs_inv hp recs sched
@@ -266,19 +268,88 @@ theorem complete {prog : List Instr} (hp : GoodProg prog) (recs : Nat → List R
   rw [hall i] at this
   simpa using this
 
-/-- The sink bodies found in the source have the required shape, and their mutex is a function-local
-static (one mutex for all threads and all logger instances). -/
+/-- `GoodProg`, decidably -/
+def goodProg : List Instr → Bool
+  | .lock :: .write :: tail => tail.all (· == .flush)
+  | _ => false
+
+theorem goodProg_sound {prog : List Instr} (h : goodProg prog = true) : GoodProg prog := by
+  unfold goodProg at h
+  split at h
+  · rename_i tail
+    exact ⟨tail, rfl, fun x hx => by simpa using List.all_eq_true.mp h x hx⟩
+  · simp at h
+
+theorem sinkProg_good (progs : List (List Instr)) (h : progs.all goodProg = true) (hne : progs ≠ []) :
+    ∀ r, GoodProg (sinkProg progs r) := by
+  intro r
+  unfold sinkProg
+  have hall := List.all_eq_true.mp h
+  by_cases hi : sevOf r < progs.length
+  · rw [List.getD_eq_getElem?_getD, List.getElem?_eq_getElem hi]
+    exact goodProg_sound (hall _ (List.getElem_mem hi))
+  · rw [List.getD_eq_getElem?_getD, List.getElem?_eq_none (by omega)]
+    cases progs with
+    | nil => exact absurd rfl hne
+    | cons p ps => exact goodProg_sound (hall p (by simp))
+
+/-- **The sink bodies found in the source** (one per severity, written by the translator on every
+run) all have the required shape — the guard is taken first, for every severity, and held until the
+body ends — and their mutex is a function-local static (one mutex for all threads and loggers). -/
 theorem extracted_sinks_are_good :
-    Generated.mtExtracted = true ∧ GoodProg Generated.stdoutSink ∧ GoodProg Generated.stderrSink ∧
+    Generated.mtExtracted = true ∧
+    Generated.stdoutSinkBySev.length = 6 ∧ Generated.stdoutSinkBySev.all goodProg = true ∧
+    Generated.stderrSinkBySev.length = 6 ∧ Generated.stderrSinkBySev.all goodProg = true ∧
     Generated.stdoutMutexStatic = true ∧ Generated.stderrMutexStatic = true := by
-  refine ⟨by decide, ?_, ?_, by decide, by decide⟩
-  · exact ⟨_, by simp [Generated.stdoutSink]; rfl, by simp⟩
-  · exact ⟨_, by simp [Generated.stderrSink]; rfl, by simp⟩
+  decide
+
+theorem stdout_good : ∀ r, GoodProg (sinkProg Generated.stdoutSinkBySev r) :=
+  sinkProg_good _ extracted_sinks_are_good.2.2.1 (by
+    intro h; have := extracted_sinks_are_good.2.1; rw [h] at this; simp at this)
+
+theorem stderr_good : ∀ r, GoodProg (sinkProg Generated.stderrSinkBySev r) :=
+  sinkProg_good _ extracted_sinks_are_good.2.2.2.2.1 (by
+    intro h; have := extracted_sinks_are_good.2.2.2.1; rw [h] at this; simp at this)
+
+/-- **`sink::stdout_mt` as extracted**: under every schedule, for records of any severities, no two
+threads are past the lock together, and whenever no call is in progress the stream holds whole
+records only, each once, every thread's in its own order. -/
+theorem stdout_mt_safe (recs : Nat → List Rec) (sched : List Nat) :
+    let s := runs (sinkProg Generated.stdoutSinkBySev) (init recs) sched
+    (∀ i j, (s.threads i).pc > 0 → (s.threads j).pc > 0 → i = j) ∧
+    (s.holder = none → s.out = (s.done.map (·.2)).flatten ∧
+      ∀ i, ((s.done.filter (·.1 = i)).map (·.2)) ++ (s.threads i).todo = recs i) :=
+  ⟨fun i j hi hj => mutex stdout_good recs sched i j hi hj, fun h => atomic stdout_good recs sched h⟩
+
+/-- **`sink::StdErrThreaded` as extracted**: the same. -/
+theorem stderr_mt_safe (recs : Nat → List Rec) (sched : List Nat) :
+    let s := runs (sinkProg Generated.stderrSinkBySev) (init recs) sched
+    (∀ i j, (s.threads i).pc > 0 → (s.threads j).pc > 0 → i = j) ∧
+    (s.holder = none → s.out = (s.done.map (·.2)).flatten ∧
+      ∀ i, ((s.done.filter (·.1 = i)).map (·.2)) ++ (s.threads i).todo = recs i) :=
+  ⟨fun i j hi hj => mutex stderr_good recs sched i j hi hj, fun h => atomic stderr_good recs sched h⟩
 
 /-- Without the lock guard the guarantee fails: two threads, one schedule, a torn record. -/
 theorem unlocked_counterexample :
     let recs : Nat → List Rec := fun i => if i = 0 then [[1, 1]] else if i = 1 then [[2, 2]] else []
-    (runs [.write] (init recs) [0, 1, 0, 1]).out = [1, 2, 1, 2] := by
+    (runs (fun _ => [.write]) (init recs) [0, 1, 0, 1]).out = [1, 2, 1, 2] := by
+  decide
+
+/-- Releasing the guard before the flush fails too: one thread flushes while the other, which owns
+the mutex legitimately, is in the middle of its insertion — two threads inside the stream. -/
+theorem flush_outside_lock_counterexample :
+    let recs : Nat → List Rec := fun i => if i = 0 then [[1]] else if i = 1 then [[2, 2]] else []
+    let P : Rec → List Instr := fun _ => [.lock, .write, .unlock, .flush]
+    let s := runs P (init recs) [0, 0, 0, 0, 1, 1]
+    inStream P s 0 = true ∧ inStream P s 1 = true := by
+  decide
+
+/-- Skipping the guard for one severity fails: a fatal record lands inside an info record. -/
+theorem severity_dependent_lock_counterexample :
+    let recs : Nat → List Rec := fun i => if i = 0 then [[1, 1, 3, 9]] else if i = 1 then [[2, 1, 6, 9]] else []
+    let P : Rec → List Instr := sinkProg [[.lock, .write], [.lock, .write], [.lock, .write], [.lock, .write],
+      [.lock, .write], [.write]]
+    (runs P (init recs) [0, 0, 0, 1, 1, 0, 0, 1, 1]).out = [1, 1, 2, 1, 3, 9, 6, 9] := by
   decide
 
 end NitroVerif.Props.C09
